@@ -1992,7 +1992,7 @@ def r6_c_use(L, cs, rntable):
 
 GEN_RESULT = V("<MA[MAI]>")
 ARFCN_FLAG_NAMES = ((0x8000, "ARFCN_PCS"), (0x4000, "ARFCN_UPLINK"))     # osmocom/gsm/gsm_utils.h
-CARRY_FREE_VALUES = (1, 2)          # two valuations of state the stored value may read besides the generator's result
+CARRY_FREE_VALUES = (1, 2)          # valuations of other state the stored value reads: tried only to refute
 
 
 def arfcn_encodings():
@@ -2082,18 +2082,31 @@ def r9_c_carriage(L, cs):
     prefer = [0x8000 | 512, 0x4000 | 512, 0xc000 | 512, 512, 1, 1023]
     for i, (conds, post) in enumerate(arms):
         free = sorted((v for v in variables(post) if v != GEN_RESULT), key=repr)
-        bad, k, unfolded = {}, 0, []
+        bad, k, unfolded, undecided = {}, 0, [], []
         for e in encs:
             ent = _c_convert(e, *ety)
-            for fv in CARRY_FREE_VALUES if free else CARRY_FREE_VALUES[:1]:
+            k += 1
+            # first without any other state: a value the fold reaches this way does not depend on it
+            got = eval_term(post, {GEN_RESULT: ent}, _cast_call)
+            if got is not None:
+                if got != ent:
+                    bad[e] = (got, {GEN_RESULT: ent})
+                continue
+            if not free:
+                unfolded.append(e)
+                continue
+            for fv in CARRY_FREE_VALUES:
                 env = {v: fv for v in free}
                 env[GEN_RESULT] = ent
                 got = eval_term(post, env, _cast_call)
-                k += 1
                 if got is None:
                     unfolded.append(e)
-                elif got != ent and e not in bad:
+                    break
+                if got != ent:
                     bad[e] = (got, env)
+                    break
+            else:
+                undecided.append(e)
         if unfolded and not bad:
             # (an entry on which another value is stored is a counterexample whatever happens for the entries that leave the
             # folder's arithmetic)
@@ -2120,10 +2133,10 @@ def r9_c_carriage(L, cs):
                                     "; %d more leave the folder's arithmetic" % len(set(unfolded)) if unfolded else ""),
                  False, tu.line(g))
             continue
-        if free:
-            raise AnalysisError("rfch_get_params(): the value `%s` stored through *%s depends on %s besides the generator's result "
-                                "and equals the selected entry on the valuations tried; unclassifiable" % (
-                                    _disp(G.show(post))[:160], gp[1], ", ".join(_disp(v[1]) for v in free[:3])))
+        if undecided:
+            raise AnalysisError("rfch_get_params(): for the entry %s the value `%s` stored through *%s depends on %s besides the "
+                                "generator's result and equals the entry on the valuations tried; unclassifiable" % (
+                                    _arfcn_txt(undecided[0]), _disp(G.show(post))[:160], gp[1], ", ".join(_disp(v[1]) for v in free[:3])))
         L.ob("C07.R9", F_RFCH, "rfch_get_params", key, want,
              "equal for all %d encodings (stored value `%s`, %s() returns `%s`; exhaustive fold)" % (
                  len(encs), _disp(G.show(post))[:200], cs.HOP, rty_txt), True, tu.line(g))
